@@ -239,7 +239,7 @@ func c01Pair(c *Ctx) *RuleResult {
 }
 
 func c01Dispatch(c *Ctx) *RuleResult {
-	r := &RuleResult{Rule: "C01.dispatch", Floor: 2,
+	r := &RuleResult{Rule: "C01.dispatch", Floor: 1,
 		Doc: "every 'execute' response built by the scheduler (composite literal of remoteworker.DesiredState_Executing_) points at the desiredState of the responding worker's own currentTask, read in the same function without an intervening store to that field"}
 	p := c.P
 	ct := p.LookupField(schedPkg, "worker", "currentTask")
